@@ -3,6 +3,7 @@ import Solstat.Detectors
 import Solstat.Spec.Basic
 import Solstat.Spec.C05
 import Solstat.Spec.C07
+import Solstat.Spec.C06
 import Solstat.Gen.Patterns
 /-!
 # Correspondence-check plumbing (not part of the verified model)
@@ -171,6 +172,15 @@ def selfdestructOracleOn (f : T) (impl : List (Nat × Nat)) : Option String :=
   | [], [] => none
   | (_, _, c) :: _, _ => some s!"unprotected call not reported: {nodeHead c}"
   | [], p :: _ => some s!"reported {p.1}:{p.2} has no call site outside the must-not cases"
+
+/-- detectors whose property is an exact "iff": expected location set -/
+def expectedSetOf : String → Option (T → List Loc)
+  | "payable_function_optimization" => some expectedPayable
+  | "private_constant_optimization" => some expectedPrivateConstant
+  | "private_vars_leading_underscore" => some expectedPrivateVars
+  | "private_func_leading_underscore" => some expectedPrivateFunc
+  | "constructor_order_qa" => some expectedConstructorOrder
+  | _ => none
 
 def lookup {α : Type} (m : List (String × α)) (k : String) : Option α := (m.find? (fun e => e.1 == k)).map (·.2)
 
